@@ -29,7 +29,7 @@ ASSUMPTIONS = [
     "the reference frame parser decides what counts as a well-formed protocol stream",
 ]
 MINIMUM = {"programs": 120, "wire_bytes_parsed": 100000, "purity_shapes": 30, "traceback_lines_checked": 20}
-SHARD_TIMEOUT = {"quick": 240, "thorough": 3000}
+SHARD_TIMEOUT = {"quick": 150, "thorough": 3000}
 
 
 def shards(tier, seed):
